@@ -61,6 +61,7 @@ class Ref(object):
         self.return_value = None
         self.steps = 0
         self.budget = 20000
+        self.events = {}               # what the executed selections looked like (shared by forks)
 
     def fork(self):
         other = copy.copy(self)
@@ -207,11 +208,31 @@ class Ref(object):
         finally:
             self.blocks.pop()
 
-    def candidates(self, hs, where, first_only=False):
+    def navigate_steps(self, v, steps):
+        sh = self.shadow
+        if isinstance(v, list):
+            cur = [self.live(x) for x in v]
+        else:
+            cur = [self.live(v)]
+        for (kind, rel, phrase) in steps:
+            nxt = []
+            for h in cur:
+                got = sh.navigate(h, kind, rel, phrase or '')
+                if got is None:
+                    raise RefError('no such link')
+                for x in got:
+                    if x not in nxt:
+                        nxt.append(x)
+            cur = nxt
+        return cur
+
+    def candidates(self, hs, where, first_only=False, what='select'):
         out = []
-        for h in hs:
+        for i, h in enumerate(hs):
             if first_only and out:
                 break        # select any/one stops at the first match (where clauses may have effects)
+            if first_only and where is not None and i == len(hs) - 1 and len(hs) > 1:
+                self.events[what + '-where-examined-all'] = self.events.get(what + '-where-examined-all', 0) + 1
             if where is None:
                 out.append(h)
                 continue
@@ -222,6 +243,9 @@ class Ref(object):
                 self.blocks.pop()
             if ok:
                 out.append(h)
+                if first_only and i > 0:
+                    k = what + '-where-first-fails-later-matches'
+                    self.events[k] = self.events.get(k, 0) + 1
         return out
 
     def ex(self, s):
@@ -270,29 +294,15 @@ class Ref(object):
                 fn(x, y, rel, ph)
         elif k == 'select_from':
             _, card, var, kind, where = s
-            c = self.candidates(list(sh.extent[kind.upper()]), where, card != 'many')
+            c = self.candidates(list(sh.extent[kind.upper()]), where, card != 'many', 'select-from')
             if card == 'many':
                 self.store(var, [('inst', h) for h in c])
             else:
                 self.store(var, ('inst', c[0]) if c else None)
         elif k == 'select_related':
             _, card, var, handle, steps, where = s
-            v = self.ev(handle)
-            if isinstance(v, list):
-                cur = [self.live(x) for x in v]
-            else:
-                cur = [self.live(v)]
-            for (kind, rel, phrase) in steps:
-                nxt = []
-                for h in cur:
-                    got = sh.navigate(h, kind, rel, phrase or '')
-                    if got is None:
-                        raise RefError('no such link')
-                    for x in got:
-                        if x not in nxt:
-                            nxt.append(x)
-                cur = nxt
-            c = self.candidates(cur, where, card != 'many')
+            cur = self.navigate_steps(self.ev(handle), steps)
+            c = self.candidates(cur, where, card != 'many', 'select-related')
             if card == 'many':
                 self.store(var, [('inst', h) for h in c])
             else:
@@ -668,13 +678,26 @@ class ProgGen(object):
             pool = src + (sets if r.random() < 0.4 else [])
             if not pool:
                 return None
-            n, t = r.choice(pool)
-            steps, end = self.nav_steps(t[1])
+            # prefer (of a few tries) a navigation that reaches several instances
+            wide = False
+            for _ in range(4):
+                n, t = r.choice(pool)
+                steps, end = self.nav_steps(t[1])
+                if not steps:
+                    continue
+                try:
+                    wide = len(self.ref.navigate_steps(self.ref.lookup(n), steps)) > 1
+                except RefError:
+                    wide = False
+                if wide:
+                    break
             if not steps:
                 return None
             card = r.choice(('one', 'any', 'many', 'many'))
+            if wide and r.random() < 0.5:
+                card = 'any'
             where = None
-            if 'where' in f and r.random() < 0.4:
+            if 'where' in f and r.random() < (0.7 if wide else 0.4):
                 where = self.expr(BOOL, 2, selected_kind=end)
             name = self.fresh('s' if card == 'many' else 'i')
             ty = ('set', end) if card == 'many' else ('inst', end)
